@@ -75,6 +75,16 @@ func addSubstProcs(r rng, p *sdl.Program) {
 				pr.Rules = append(pr.Rules, &sdl.Rule{Target: tgt.ID, At: at, Action: action, Sub: s, Fresh: action == "substitute" && r.p(0.15)})
 			}
 		}
+		if pr.Class != "plain" && len(p.Instances) >= 2 && r.p(0.25) {
+			// the processor looks another component up while it handles this one (a cycle can be
+			// closed from inside an instantiation-aware callback)
+			a := pick(r, p.Instances)
+			b := pick(r, p.Instances)
+			if a.ID != b.ID {
+				pr.Rules = append(pr.Rules, &sdl.Rule{Target: a.ID, At: pick(r, []string{sdl.CbAfterInst, sdl.CbAfterInst, sdl.CbProps, sdl.CbBefore}), Action: "lookup", Sub: b.ID})
+				pr.Props = true
+			}
+		}
 		p.Procs = append(p.Procs, pr)
 	}
 }
@@ -508,6 +518,7 @@ func GenerateTwins(seed uint64, idFlat, idEmb string) (*sdl.Program, *sdl.Progra
 			sc.NodeType = "Configuration"
 		}
 		sc.Handler = r.p(0.5)
+		sc.Inventory = r.p(0.4)
 		p.Scanners = append(p.Scanners, sc)
 	}
 	for _, t := range p.Types {
